@@ -84,6 +84,7 @@ CASES = [
     ("[v for v in [a, b, 7] if v > 0]", {"a": "small", "b": "small"}), ("any(v > 5 for v in [a, b])", {"a": "small", "b": "small"}),
     ("list(filter(None, [a & 1, a & 2, a & 4]))", {"a": "u8"}), ("len({a, b})", {"a": "small", "b": "small"}),
     # statements
+    ("h_slice_assign(a, b)", {"a": "small", "b": "small"}),
     ("h_remove_while_iterating(a, b, c)", {"a": "small", "b": "small", "c": "small"}), ("h_append_while_iterating(a, b)", {"a": "small", "b": "small"}),
     ("h_dict_changed(a, b)", {"a": "pos", "b": "pos"}), ("h_try_finally(a)", {"a": "small"}), ("h_default_arg(a)", {"a": "small"}),
     ("h_closure(a, b)", {"a": "small", "b": "small"}), ("h_while_break(a)", {"a": "pos"}),
@@ -107,6 +108,14 @@ CASES = [
 
 
 # statement-level semantics (helpers are run by CPython for the expected value and by the engine for the claimed one)
+def h_slice_assign(a, b):
+    xs = [a, b, 3]
+    ys = xs
+    xs[:] = [v for v in xs if v > 0]
+    ys[1:2] = [7, 8]
+    return (xs, ys is xs, len(ys))
+
+
 def h_remove_while_iterating(a, b, c):
     lst, seen = [a, b, c], []
     for x in lst:
@@ -343,7 +352,7 @@ def h_loops(a):
 
 
 HELPERS = {f.__name__: f for f in (h_classes, h_kwargs, h_exceptions, h_containers, h_strings, h_scoping, h_loops,
-                                   h_remove_while_iterating, h_append_while_iterating, h_dict_changed, h_try_finally, h_default_arg,
+                                   h_slice_assign, h_remove_while_iterating, h_append_while_iterating, h_dict_changed, h_try_finally, h_default_arg,
                                    h_closure, h_while_break)}
 
 
